@@ -16,22 +16,11 @@ use pre::*;
 
 //@dbstruct definitions file_cache
 
+//@include prelude/db_specs.rs
+
 broadcast use {axiom_has_parent_nonempty, axiom_str_as_path, axiom_vp_le_usize};
 
 impl FixtureDatabase {
-    pub open spec fn defs(&self) -> Map<Seq<char>, Seq<DefV>> { defs_view(self.definitions.m()) }
-    pub open spec fn text_dom(&self) -> Set<PV> { self.file_cache.m().dom() }
-    /// conftest c "provides `name` through an import" as the resolver tests it
-    pub open spec fn prov(&self, name: Seq<char>) -> spec_fn(PV) -> bool {
-        |c: PV| (fs_exists(c) || self.text_dom().contains(c)) && imported_in(self.file_cache.m(), self.defs(), name, c)
-    }
-
-    // callee contract (assumed here, owned by the imports unit): an abstract function of the state
-    #[verifier::external_body]
-    pub fn is_fixture_imported_in_file(&self, fixture_name: &str, file_path: &Path) -> (r: bool)
-        ensures r == imported_in(self.file_cache.m(), self.defs(), fixture_name@, pv(file_path))
-    { unimplemented!() }
-
 /*@ extract src/fixtures/resolver.rs find_closest_definition_with_filter
 @tags C01 C02 C04 C05 C08 C16 C17 C20
 @rename max_by_key vp_max_by_key
@@ -207,6 +196,5 @@ impl FixtureDatabase {
 @*/
 }
 
-pub open spec fn opt_ref_dv(o: Option<&FixtureDefinition>) -> Option<DefV> { match o { Some(d) => Some(dv(d)), None => None } }
 } // verus!
 fn main() {}
